@@ -76,6 +76,9 @@ type KnownFinding struct {
 	KeyPattern  string `json:"key_pattern"`
 	Commit      string `json:"commit,omitempty"`
 	Description string `json:"description"`
+	// Witness: a replay file (relative to the verif directory) that exhibits the finding; it is re-executed by
+	// every run of the property's check, so that the KNOWN-FINDING line does not depend on the seed.
+	Witness string `json:"witness,omitempty"`
 }
 
 func LoadKnown(path string) ([]KnownFinding, error) {
@@ -266,6 +269,40 @@ func Check(reg *Registry, property, tier, verifDir string) int {
 			continue
 		}
 		fresh = append(fresh, f)
+	}
+	// witnesses of the listed known findings this batch did not happen to hit
+	firstOf := map[string]found{}
+	for _, f := range founds {
+		if k := MatchKnown(known, f.v); k != nil {
+			if _, seen := firstOf[k.Property+" "+k.Oracle+" "+k.KeyPattern]; !seen {
+				firstOf[k.Property+" "+k.Oracle+" "+k.KeyPattern] = f
+			}
+		}
+	}
+	for i := range known {
+		k := &known[i]
+		id := k.Property + " " + k.Oracle + " " + k.KeyPattern
+		if k.Status != "known" || k.Property != property || k.Witness == "" || knownHit[id] != nil {
+			continue
+		}
+		out, _ := exec.Command(self, "replay", "--quiet", filepath.Join(verifDir, k.Witness)).CombinedOutput()
+		if strings.Contains(string(out), "reproduced=true") {
+			knownHit[id] = k
+		} else {
+			fmt.Fprintf(os.Stderr, "note: witness %s of a listed known finding did not reproduce\n", k.Witness)
+		}
+	}
+	if dir := os.Getenv("VERIF_SAVE_WITNESS"); dir != "" {
+		os.MkdirAll(dir, 0o755)
+		n := 0
+		for id, f := range firstOf {
+			min := Shrink(reg.Scenarios[f.line.Scenario], *f.line.Plan, f.v.Class(), 2*time.Minute, reg.UnstableSUT[property])
+			rf := ReplayFile{Property: property, Class: f.v.Class(), Seed: f.line.Seed, RunIndex: f.line.I, Plan: min, Detail: f.v.Detail}
+			path := filepath.Join(dir, fmt.Sprintf("%s-%s-%d.json", property, f.v.Oracle, n))
+			n++
+			os.WriteFile(path, MustJSONIndent(rf), 0o644)
+			fmt.Fprintf(os.Stderr, "witness for [%s] written to %s\n", id, path)
+		}
 	}
 	exit := 0
 	var replayPath string
